@@ -4,6 +4,8 @@ import Corro.Props.C12
 #print axioms Corro.CatchUp.resume_base
 #print axioms Corro.CatchUp.ids_strictly_increasing_before_handover
 #print axioms Corro.CatchUp.done_frozen
+#print axioms Corro.CatchUp.paused_batch_is_schedule
+#print axioms Corro.CatchUp.never_caught_up_between_send_and_commit
 #print axioms Corro.CatchUp.handover_duplicate_before_fix
 #print axioms Corro.CatchUp.handover_duplicate_fixed
 #print axioms Corro.CatchUp.lag_swallowed_gap_before_fix
